@@ -140,10 +140,10 @@ def evaluate(ck, recs, tag="calls", count=True):
             if count:
                 ck.count()
                 ck.nontrivial(shape(r))
-            pa = r["plan"]["attempts"]
-            pad = pa[min(len(pa), max(1, r["attempts"])) - 1].get("pad", 0) if pa else 0
-            if r["class"] == "ok" and pad and r.get("pay_len", 0) < pad:
-                code = max(code, 2)  # truncated payload
+            if r["class"] == "ok" and truncated(r):
+                code = max(code, 2)  # truncated / altered payload
+            if over_budget(r):
+                code = max(code, 2)  # "within its timeout and retry budget"
             if code != 0 or r.get("panic"):
                 bad.append((r, code))
     batches = [r for r in recs if r["k"] == "batch"]
@@ -217,20 +217,61 @@ def report(ck, bad, badb):
         ck.failures.append(f)
 
 
+def truncated(r):
+    pa = r["plan"]["attempts"]
+    a = pa[min(len(pa), max(1, r["attempts"])) - 1] if pa else {}
+    if a.get("pad") and r.get("pay_len", 0) < a["pad"]:
+        return True
+    if a.get("padto") and r.get("pay_len", 0) != a["padto"] and r.get("err") != "apperr":
+        return True
+    return False
+
+
+def over_budget(r):
+    """The call took longer than (retries+1) timeouts plus generous slack (handler latencies, scheduling): timing-dependent."""
+    n = len(r["plan"]["attempts"])
+    lat = max([a.get("lat", 0) for a in r["plan"]["attempts"]] + [0])
+    return r["class"] != "hang" and r.get("elapsed_ms", 0) > r["plan"].get("start", 0) + n * r["timeout_ms"] + lat + 2500
+
+
+def intrinsic(r):
+    """Reason why an off-oracle call is reported AT ONCE (no re-run): these observations cannot be produced by load or timing on
+    code that has the property (argued one by one in docs/C17.md), so seeing one once is a violation. None = timing-dependent."""
+    if r.get("panic"):
+        return "panic in the request path"
+    if r["class"] == "ok":
+        if r["pay_call"] != r["plan"]["call"]:
+            return "the caller received the payload produced for another call"
+        if r["pay_kind"] == "W":
+            return "a response carrying a different request ID was delivered"
+        if r["pay_att"] != r["attempts"]:
+            return "the caller received the reply to another attempt than its last one"
+        if truncated(r):
+            return "truncated payload"
+    if have_stats(r):
+        for k, a in enumerate(r["accepted"]):
+            if a >= 1 and (k + 1 < r["attempts"] or r["class"] not in ("ok", "cancelled")):
+                return "a response accepted into the channel of attempt %d was not returned (class %s, %d attempts)" % (
+                    k + 1, r["class"], r["attempts"])
+    return None
+
+
 def confirm(ck, binp, recs, bad, badb, rounds=2):
-    """Timing-dependent observations are confirmed by re-running the affected plans in isolation (up to `rounds` times):
-    only what deviates again every time is reported. A blocked layer is reported at once."""
-    n0, b0 = len(bad), len(badb)
-    kinds0 = sorted(set("%s/%s/%s" % (r.get("bkind", "?"), "strict" if r["plan"]["strict"] else "race", r["class"]) for r, _ in bad))
+    """Selective confirmation. Reported at once: intrinsic violations (see [intrinsic]), a blocked layer, leaked entries, calls
+    that did not complete. Only the remaining, timing-dependent deviations (a strict plan whose latency margins were missed:
+    outcome class / number of attempts / model schedule) are re-run in isolation, up to `rounds` times, and dropped if a re-run
+    is clean."""
+    now_bad = [(r, c) for r, c in bad if intrinsic(r)]
+    timing = [(r, c) for r, c in bad if not intrinsic(r)]
+    now_badb, n0 = list(badb), len(timing)
+    kinds0 = sorted(set("%s/%s/%s" % (r.get("bkind", "?"), "strict" if r["plan"]["strict"] else "race", r["class"]) for r, _ in timing))
     for k in range(rounds):
-        if not bad and not badb:
+        if not timing:
             break
-        if any(b["hang"] for b in badb):
-            return bad, badb  # a blocked layer is not a timing artefact
         inp = os.path.join(ck.work, "confirm_in.jsonl")
         with open(inp, "w") as f:
             whole = set()
-            for r, _ in bad:
+            for r, _ in timing:
                 if str(r.get("bkind", "")).startswith("held"):
                     whole.add(r["batch"])  # a forced schedule involves the whole batch (the calls that set the stage)
                 else:
@@ -238,19 +279,32 @@ def confirm(ck, binp, recs, bad, badb, rounds=2):
             for r in recs:
                 if r["k"] == "call" and r["batch"] in whole:
                     f.write(json.dumps(r) + "\n")
-            for b in badb:
-                for r in recs:
-                    if r["k"] == "call" and r["batch"] == b["batch"]:
-                        f.write(json.dumps(r) + "\n")
         again = ck.run_harness(binp, ["-in", inp], out_name="confirm.jsonl")
         if again is None:
-            return bad, badb
+            break  # an unusable re-run never removes a failure
         recs = again
-        bad, badb = evaluate(ck, again, tag="confirm%d" % k, count=False)
-    if n0 or b0:
-        ck.notes.append("%d call(s) %s/%d batch(es) off the oracle or model in the main run were re-run in isolation: %d/%d reproduced" % (
-            n0, kinds0, b0, len(bad), len(badb)))
-    return bad, badb
+        bad2, badb2 = evaluate(ck, again, tag="confirm%d" % k, count=False)
+        now_bad += [(r, c) for r, c in bad2 if intrinsic(r)]
+        now_badb += badb2
+        timing = [(r, c) for r, c in bad2 if not intrinsic(r)]
+    if n0:
+        ck.notes.append("%d timing-dependent call deviation(s) %s in the main run were re-run in isolation: %d reproduced" % (
+            n0, kinds0, len(timing)))
+    return now_bad + timing, now_badb
+
+
+def stats_floor(ck, recs):
+    """The acceptance statistics (oracle clause acc_ok) must be available for nearly all calls."""
+    calls = [r for r in recs if r["k"] == "call" and r["attempts"] >= 1 and r["class"] != "hang"]
+    ok = sum(1 for r in calls if have_stats(r))
+    ck.extra["calls_with_acceptance_stats"] = "%d/%d" % (ok, len(calls))
+    ck.obligations += 1
+    if calls and ok * 10 < len(calls) * 9:
+        ck.fail_obligation("acceptance-stats", "only %d of %d calls carry usable per-attempt acceptance statistics (the oracle clause "
+                           "'an accepted response is returned' would be skipped): the recorder of the verif hook no longer recognises "
+                           "what onResponse reports, or the statistics never became quiescent" % (ok, len(calls)))
+    else:
+        ck.discharged += 1
 
 
 def run(ck):
@@ -276,15 +330,17 @@ def run(ck):
     if recs is None:
         return
     bad, badb = evaluate(ck, recs)
+    stats_floor(ck, recs)
     bad, badb = confirm(ck, binp, recs, bad, badb)
     report(ck, bad, badb)
     sbad = evaluate_shutdown(ck, recs)
-    if sbad and not any(c["class"] in ("panic", "neither") for r, _ in sbad for c in r["calls"]):
+    if sbad and not any(c["class"] in ("panic", "neither") for r, _ in sbad for c in r["calls"]) and \
+            not any(r["pending"] != 0 for r, _ in sbad):
         # a slow shutdown can be a timing artefact; a request that ends with neither response nor error is not
         again = ck.run_harness(binp, ["-det", "0", "-rounds", "0", "-race", "0", "-held", "0", "-deadline", "0", "-cancelrace", "0",
                                       "-large=false"], out_name="confirm_shutdown.jsonl")
-        if again is not None:
-            sbad = evaluate_shutdown(ck, again, tag="shutdown_confirm", count=False)
+        if again is not None and [r for r in again if r["k"] == "shutdown" and not r.get("setup")]:
+            sbad = evaluate_shutdown(ck, again, tag="shutdown_confirm", count=False)  # (a usable re-run only)
     report_shutdown(ck, sbad)
     calls = [r for r in recs if r["k"] == "call"]
     for r in calls[:1] + [x for x in calls if x["class"] == "timeout"][:1] + [x for x in calls if not x["plan"]["strict"]][:1] + \
